@@ -49,10 +49,10 @@ func RunRef(p *gen.Program, o Opts, skipErased bool) (ref.Result, *ref.Machine, 
 		fmt.Sscanf(d[i+1:], "%d", &ar)
 		m.Declare(name, ar)
 	}
-	if err := m.Consult(p.Grouped()); err != nil {
+	if err := m.Consult(plainAll(p.Grouped())); err != nil {
 		return ref.Result{Budget: true}, m, nil
 	}
-	return m.Solve(p.Query, p.Vars(), o.MaxAnswers), m, nil
+	return m.Solve(gen.Plain(p.Query, "chars"), p.Vars(), o.MaxAnswers), m, nil
 }
 
 // Load loads the program into a fresh real interpreter.
@@ -75,13 +75,22 @@ func Load(p *gen.Program) (*sut.I, error) {
 	}
 	for _, c := range p.Grouped() {
 		ids := c.Vars(nil)
-		q := rt.C("assertz", c).Text(rt.VarNames(ids)) + "."
+		q := gen.TextStr(rt.C("assertz", c), rt.VarNames(ids)) + "."
 		r := i.Query(q, []string{}, 1, 200_000)
 		if r.Err != nil || len(r.Answers) != 1 {
 			return i, fmt.Errorf("assertz of %s failed: %v", gen.ClauseText(c), r.Err)
 		}
 	}
 	return i, nil
+}
+
+// plainAll replaces string literal nodes by the character lists they denote (the reference has one list representation).
+func plainAll(cs []*rt.Term) []*rt.Term {
+	out := make([]*rt.Term, len(cs))
+	for i, c := range cs {
+		out[i] = gen.Plain(c, "chars")
+	}
+	return out
 }
 
 // Run compares one program.
